@@ -97,7 +97,7 @@ Section Arms.
   Lemma print_nu : forall args, bi_print o args <> Unmodelled.
   Proof. intros. unfold bi_print. apply obind_nu; [apply print_line_nu|]. discriminate. Qed.
   Lemma time_now_nu : forall args, bi_time_now o args <> Unmodelled.
-  Proof. intros. unfold bi_time_now. destruct (o_now o); discriminate. Qed.
+  Proof. intros. unfold bi_time_now. discriminate. Qed.
 End Arms.
 
 (* ---------------- the arms of builtin_full without a lemma in AllNoUnmList / AllNoUnmEval ---------------- *)
